@@ -17,7 +17,7 @@ from .values import *  # noqa: F401,F403
 from .values import term_of
 
 
-SPEC_FORMS = {"old", "implies", "iff", "forall_in", "exists_in", "ite", "fresh_clock", "typeis", "flag"}
+SPEC_FORMS = {"forall_str", "forall_int", "old", "implies", "iff", "forall_in", "exists_in", "ite", "fresh_clock", "typeis", "flag"}
 
 
 class GhostNS(V):
@@ -53,6 +53,18 @@ class ContractInterp(Interp):
         for a, t in zip(args, ats):
             if isinstance(a, VOpt):
                 a = a.val
+            if isinstance(a, VDict) and t[0] == "opaque":
+                # a dict display with concrete keys as an opaque value: dict_cons(k1, v1, dict_cons(k2, v2, empty))
+                cons = z3.Function("dict_cons", z3.StringSort(), Opaque, Opaque, Opaque)
+                box = z3.Function("box_str", z3.StringSort(), Opaque)
+                cur = z3.Const("dict_empty", Opaque)
+                for k, v in reversed(list(self.st.heap[(a.ref, "items")].items())):
+                    vt = v.term if isinstance(v, VOpaque) else (box(v.term) if isinstance(v, VStr) else None)
+                    if vt is None:
+                        raise Unsupported(f"dict value {v!r} passed to uninterpreted function {n}")
+                    cur = cons(z3.StringVal(str(k)), vt, cur)
+                ts.append(cur)
+                continue
             if isinstance(a, VObj) and not a.symbolic:
                 raise Unsupported(f"heap object passed to uninterpreted function {n}")
             ts.append(term_of(a))
@@ -110,6 +122,14 @@ class ContractInterp(Interp):
             if n == "forall_in":
                 return VBool(z3.And(*out) if out else z3.BoolVal(True))
             return VBool(z3.Or(*out) if out else z3.BoolVal(False))
+        if n in ("forall_str", "forall_int"):
+            var = e.args[0].id
+            srt = z3.StringSort() if n == "forall_str" else z3.IntSort()
+            x = z3.Const(self.st.fresh_name(var), srt)
+            f2 = Frame(fr.finfo, fr, cls=fr.cls)
+            f2.vars[var] = VStr(x) if n == "forall_str" else VInt(x)
+            body = _b(self.truth(self.eval(e.args[1], f2)))
+            return VBool(z3.ForAll([x], body))
         if n == "flag":
             nm = ast.literal_eval(e.args[0])
             v = self.st.ghost.get(nm)
@@ -206,8 +226,21 @@ class ContractInterp(Interp):
             return mk_sym(st, self.tenv, t, st.fresh_name(name))
         raise Unsupported(f"cannot havoc {name} ({old!r})")
 
-    def havoc(self, locs, env):
+    def expand_locs(self, locs, env):
+        """`for x in <concrete iterable>: <location using x>` -> one location per element"""
+        out = []
         for loc in locs:
+            if loc.startswith("for "):
+                head, body = loc[4:].split(":", 1)
+                var, itexpr = head.split(" in ", 1)
+                for item in self.iterate(self.eval_spec_expr(itexpr.strip(), env)):
+                    out.append((body.strip(), {**env, var.strip(): item}))
+            else:
+                out.append((loc, env))
+        return out
+
+    def havoc(self, locs, env):
+        for loc, env in self.expand_locs(locs, env):
             r = self.resolve_location(loc, env)
             if r[0] == "ghost":
                 old = self.st.ghost.get(r[1])
@@ -227,7 +260,7 @@ class ContractInterp(Interp):
 
     def location_keys(self, locs, env):
         keys = set()
-        for loc in locs:
+        for loc, env in self.expand_locs(locs, env):
             r = self.resolve_location(loc, env)
             if r[0] == "field":
                 o = r[1]
@@ -314,6 +347,9 @@ class ContractInterp(Interp):
         for i, r in enumerate(c.requires):
             t = self.spec_bool(r, env)
             ok = self.check(f"call-pre:{sname}#{i}", t, where=f"{where}: requires {r}")
+            if not ok:
+                from .loops import PathDone
+                raise PathDone()   # the precondition does not hold here: reported; nothing is known beyond this call
             st.assume(t)
         is_async = c.is_async
         if is_async is None and "::" in c.fn:
@@ -341,6 +377,15 @@ class ContractInterp(Interp):
                     env[nm] = mk_sym(st, self.tenv, t, st.fresh_name(nm))
                 em2 = {}
                 for eff in r.effects:
+                    if len(eff) > 2:
+                        saved = (st.heap, st.ghost)
+                        st.heap, st.ghost = dict(old[0]), dict(old[1])
+                        try:
+                            cond = self.spec_bool(eff[2], env, old)
+                        finally:
+                            st.heap, st.ghost = saved
+                        if not st.branch(cond):
+                            continue
                     evv = self.eval_spec_expr(eff[1], env, old)
                     self.emit(eff[0], evv)
                     em2.setdefault(eff[0], []).append(evv)
